@@ -37,6 +37,10 @@ CHECKS.update({
  "C12": ("model_checking", "Lock.tla (3 processes, drc / do-approve step order, kill anywhere) is model-checked for NoOverlap, LoserWritesNothing, HolderOnly, LockNotStuck; schedule classes (holder front-end x verb x phase at which contenders start: after the lock, login, config fetch, first change, save, before the status write, before exit x contender front-end / spelling of the device / verb x holder released or SIGKILLed) are replayed with real processes gated by the simulator and the verif hooks; LockTrace.tla checks that every contender fails at once with 'Approve in progress', never talks to the device, leaves status/history/logs byte-identical, and that a later run proceeds.", "gates only at the listed phases; one device type (ASA) for the console dialogue; SIGKILL as kill", "TLC model check of Lock.tla + trace validation of gated real-process schedules", "§7 C12"),
 })
 
+CHECKS.update({
+ "C19": ("model_checking", "NewPolicy.tla (one label per visible simple command of newpolicy.sh, 2 instances, good/bad commits with and without author e-mail, kill at every label) is model-checked for CurrentValid, OneAtATime, NumbersGrow, OnlyCompiled and Recovered; the UNMODIFIED bin/newpolicy.sh is run in scratch worlds (real git, stub netspoc/mail) under a BASH_ENV DEBUG-trap tracer that snapshots the policy database before EVERY simple command and kills the script's process group at the k-th command for every k (plus double kills and two simultaneous instances), followed by an undisturbed run; NewPolicyTrace.tla evaluates the properties on the observed snapshots.", "external commands are atomic (kill between simple commands); stub compiler; 9 history classes", "TLC model check of NewPolicy.tla + trace validation of DEBUG-trap traces of the unmodified script (kill at every command)", "§7 C19"),
+})
+
 NA_REASONS = {
  "C20": "quantifies over mutated bytes fed to parsers with oracle 'process did not panic': no state machine to specify; needs mutation fuzzing, a different technique (DESIGN.md §8)",
 }
